@@ -88,6 +88,8 @@ DEVIATIONS = {
     'x1024': {'scale': 1024.0},
     'x2-10': {'scale': 2.0 ** -10},
     'x.125': {'scale': .125},
+    'x2-40': {'scale': 2.0 ** -40},       # e.g. MEG in tesla
+    'x2+40': {'scale': 2.0 ** 40},
     'dc5': {'offset': 5.0},
     'neg': {'negate': True},
     'driftdn': {'drift': -2.5},            # oscillation riding on a falling flank steeper than its own slope (inverted flanks)
@@ -98,7 +100,7 @@ DEVIATIONS = {
 }
 # deviations that exclude each other (same option)
 GROUPS = [('driftdn', 'driftup', 'dc5', 'neg'), ('strided', 'int', 'int16big'), ('nc2', 'nc3', 'nc4', 'ns.5', 'ns.375'), ('b0', 'b1', 'b5', 'b12'), ('thr1', 'nothr'), ('band5_12', 'band7_16', 'fs128'),
-          ('x1024', 'x2-10', 'x.125')]
+          ('x1024', 'x2-10', 'x.125', 'x2-40', 'x2+40')]
 
 
 def compatible(devs):
